@@ -9,7 +9,7 @@ CONSTANTS
   ValidW = {"w1", "w2", "w3"}
   ENames = {"ProtocolError", "NoSuchModule", "NoSuchParameter", "NoSuchCommand", "CommandFailed", "CommandRunning", "ReadOnly", "RangeError", "WrongType", "BadJSON", "CommunicationFailed", "TimeoutError", "HardwareError", "IsBusy", "IsError", "Disabled", "Impossible", "ReadFailed", "OutOfRange", "NotImplemented", "InternalError", "Bogus", "BadValue"}
   KnownE = {"ProtocolError", "NoSuchModule", "NoSuchParameter", "NoSuchCommand", "CommandFailed", "CommandRunning", "ReadOnly", "RangeError", "WrongType", "BadJSON", "CommunicationFailed", "TimeoutError", "HardwareError", "IsBusy", "IsError", "Disabled", "Impossible", "ReadFailed", "OutOfRange", "NotImplemented"}
-  Texts = {"t1", "t2", "tp"}
+  Texts = {"t1", "t2", "tp", "tm", "th", "tv"}
   PrefTexts = {"tp"}
   PrefClass = "RangeError"
   PrefRest = "t1"
